@@ -1,1 +1,195 @@
-From TT Require Import Base.Prelude Base.ImscXml Model.ImscTime Model.TimeCode Model.ImscWrite.
+(* C05, time expressions written by the IMSC writer and read back by the IMSC reader:
+   frames syntax  "Nf" with N = ceil(t * fps): read back as N / fps, which is t when t is a whole number of frames, else
+   later than t by less than one frame, and monotone in t;
+   clock time "hh:mm:ss.mmm": a millisecond multiple below 100 h is read back exactly. *)
+From TT Require Import Base.Prelude Base.ImscXml Model.ImscTime Model.TimeCode Model.ImscWrite Spec.TtmlTimingSpec.
+From TT Require Import Proofs.C04.TimeSyntax Proofs.C12.Derived.
+From Coq Require Import QArith Qabs Lqa.
+Local Open Scope Z_scope.
+
+(* ---- decimal digits of a natural number ------------------------------------------------------------------ *)
+Fixpoint le_val (l : list Z) : Z := match l with [] => 0 | d :: l' => d + 10 * le_val l' end.
+
+Lemma digits_rev_ok fuel : forall n, 0 <= n < 2 ^ Z.of_nat fuel ->
+  le_val (digits_rev fuel n) = n /\ Forall (fun d => 0 <= d <= 9) (digits_rev fuel n).
+Proof.
+  induction fuel as [|k IH]; intros n H.
+  - simpl in H. assert (n = 0) by lia. subst. split; [reflexivity|constructor].
+  - cbn [digits_rev]. destruct (n <? 10) eqn:E.
+    + split; [simpl; lia|]. constructor; [lia|constructor].
+    + assert (Hk : 0 <= n / 10 < 2 ^ Z.of_nat k).
+      { rewrite Nat2Z.inj_succ, Z.pow_succ_r in H by lia. split; [apply Z.div_pos; lia|].
+        apply Z.div_lt_upper_bound; lia. }
+      destruct (IH _ Hk) as [H1 H2]. split.
+      * cbn [le_val]. rewrite H1. pose proof (Z.div_mod n 10 ltac:(lia)). lia.
+      * constructor; [|exact H2]. pose proof (Z.mod_pos_bound n 10 ltac:(lia)). lia.
+Qed.
+
+Lemma nat_of_rev l : nat_of (rev l) = le_val l.
+Proof.
+  unfold nat_of. induction l as [|d l IH]; [reflexivity|].
+  cbn [rev]. rewrite fold_left_app. cbn [fold_left le_val]. rewrite IH. lia.
+Qed.
+
+Lemma log2_bound n : 0 <= n -> n < 2 ^ Z.of_nat (S (Z.to_nat (Z.log2 n))).
+Proof.
+  intro H. destruct (Z.eq_dec n 0) as [->|Hn]; [simpl; lia|].
+  rewrite Nat2Z.inj_succ, Z2Nat.id by apply Z.log2_nonneg.
+  apply Z.log2_spec. lia.
+Qed.
+
+Lemma nat_digits_ok n : 0 <= n ->
+  nat_of (nat_digits n) = n /\ all_dec (nat_digits n) = true /\ is_nonempty_l (nat_digits n) = true.
+Proof.
+  intro H. unfold nat_digits.
+  destruct (digits_rev_ok (S (Z.to_nat (Z.log2 n))) n (conj H (log2_bound n H))) as [H1 H2].
+  split; [rewrite nat_of_rev; exact H1|]. split.
+  - unfold all_dec. apply forallb_forall. intros d Hd. apply in_rev in Hd.
+    rewrite Forall_forall in H2. specialize (H2 d Hd). unfold is_dec. lia.
+  - cbn [digits_rev]. destruct (n <? 10); [reflexivity|].
+    cbn [rev]. destruct (rev (digits_rev (Z.to_nat (Z.log2 n)) (n / 10)) ++ [n mod 10]) eqn:E; [|reflexivity].
+    apply (f_equal (@length Z)) in E. rewrite app_length in E. simpl in E. lia.
+Qed.
+
+Lemma print_nat_chrs n : print_nat n = chrs (nat_digits n).
+Proof. reflexivity. Qed.
+
+(* ---- frames syntax ---------------------------------------------------------------------------------------------- *)
+Definition frames_of (t fps : Q) : Z := let q := (t * fps)%Q in ceil_div (Qnum q) (Zpos (Qden q)).
+
+Lemma ceil_div_spec n d : 0 < d -> let c := ceil_div n d in (c - 1) * d < n <= c * d.
+Proof.
+  intro Hd. unfold ceil_div. cbv zeta.
+  pose proof (Z.div_mod (- n) d ltac:(lia)) as E. pose proof (Z.mod_pos_bound (- n) d Hd) as B.
+  set (q := - n / d) in *. set (r := (- n) mod d) in *. clearbody q r.
+  replace ((- q - 1) * d) with (- (d * q) - d) by ring. replace (- q * d) with (- (d * q)) by ring. lia.
+Qed.
+
+Lemma frames_nonneg t fps : (0 <= t)%Q -> (0 < fps)%Q -> 0 <= frames_of t fps.
+Proof.
+  intros Ht Hf. unfold frames_of. set (q := (t * fps)%Q).
+  assert (Hq : (0 <= q)%Q) by (unfold q; apply Qmult_le_0_compat; [exact Ht|apply Qlt_le_weak; exact Hf]).
+  clearbody q.
+  pose proof (ceil_div_spec (Qnum q) (Zpos (Qden q)) ltac:(lia)) as Hc. cbv zeta in Hc.
+  unfold Qle in Hq. simpl in Hq. set (c := ceil_div (Qnum q) (Zpos (Qden q))) in *. clearbody c.
+  destruct (Z_lt_le_dec c 0) as [Hneg|]; [|assumption]. exfalso.
+  assert (c * Zpos (Qden q) <= -1 * Zpos (Qden q)) by (apply Z.mul_le_mono_nonneg_r; lia). lia.
+Qed.
+
+(* the written string and its value when read back *)
+Theorem time_frames t fps tr :
+  (0 <= t)%Q -> (0 < fps)%Q ->
+  exists s, to_time_format SyFrames (Some fps) t = Some s /\
+            exists q, parse_time_x tr (Some fps) s = TVal q /\ (q == inject_Z (frames_of t fps) / fps)%Q.
+Proof.
+  intros Ht Hf. unfold to_time_format.
+  assert (Hn : Qnum t <? 0 = false). { unfold Qle in Ht. simpl in Ht. lia. }
+  rewrite Hn. eexists. split; [reflexivity|].
+  fold (frames_of t fps). pose proof (frames_nonneg t fps Ht Hf) as HN.
+  unfold print_int. replace (frames_of t fps <? 0) with false by lia.
+  destruct (nat_digits_ok _ HN) as [H1 [H2 H3]].
+  change (print_nat (frames_of t fps) ++ [102]) with (print_time (TOffset (nat_digits (frames_of t fps)) [] Mf)).
+  rewrite pt_f by (try assumption; try reflexivity; apply Qeq_bool_pos_false; exact Hf).
+  eexists. split; [reflexivity|].
+  rewrite (dec_value_number (nat_digits (frames_of t fps)) []). unfold number. rewrite H1. simpl nat_of.
+  unfold Qdiv. setoid_replace (0 # ten_to (length (@nil Z)))%Q with 0%Q by reflexivity. ring.
+Qed.
+
+Lemma ceil_q (p : Q) :
+  let c := ceil_div (Qnum p) (Zpos (Qden p)) in (inject_Z c - 1 < p)%Q /\ (p <= inject_Z c)%Q.
+Proof.
+  destruct p as [n d]. cbv zeta. cbn [Qnum Qden].
+  pose proof (ceil_div_spec n (Zpos d) ltac:(lia)) as Hc. cbv zeta in Hc.
+  set (c := ceil_div n (Zpos d)) in *. clearbody c.
+  unfold Qlt, Qle, Qminus, Qplus, Qopp, inject_Z. cbn [Qnum Qden]. split; lia.
+Qed.
+
+(* the frame count is the least integer not below t * fps: never earlier, later by less than one frame, exact on whole frames *)
+Theorem frames_error t fps : (0 < fps)%Q ->
+  let q := (inject_Z (frames_of t fps) / fps)%Q in (t <= q)%Q /\ (q - t < 1 / fps)%Q.
+Proof.
+  intro Hf. cbv zeta. unfold frames_of.
+  destruct (ceil_q (t * fps)%Q) as [H2 H1]. cbv zeta in H1, H2.
+  set (c := inject_Z (ceil_div (Qnum (t * fps)%Q) (Zpos (Qden (t * fps)%Q)))) in *. clearbody c.
+  assert (Hi : (0 < / fps)%Q) by (apply Qinv_lt_0_compat; exact Hf).
+  assert (Hfi : (fps * / fps == 1)%Q) by (apply Qmult_inv_r; lra).
+  unfold Qdiv. set (i := (/ fps)%Q) in *. clearbody i.
+  assert (Ht : (t * fps * i == t)%Q) by (rewrite <- Qmult_assoc, Hfi; ring).
+  assert (Ha : (t * fps * i <= c * i)%Q) by (apply Qmult_le_compat_r; lra).
+  assert (Hb : ((c - 1) * i < t * fps * i)%Q) by (apply Qmult_lt_compat_r; lra).
+  split; lra.
+Qed.
+
+Theorem frames_exact k fps : (0 < fps)%Q -> frames_of (inject_Z k / fps) fps = k.
+Proof.
+  intro Hf. unfold frames_of.
+  destruct (ceil_q (inject_Z k / fps * fps)%Q) as [H2 H1]. cbv zeta in H1, H2.
+  set (c := ceil_div (Qnum (inject_Z k / fps * fps)%Q) (Zpos (Qden (inject_Z k / fps * fps)%Q))) in *. clearbody c.
+  assert (Hp : (inject_Z k / fps * fps == inject_Z k)%Q) by (field; lra).
+  rewrite Hp in H1, H2.
+  unfold Qlt, Qle, Qminus, Qplus, Qopp, inject_Z in H1, H2. cbn [Qnum Qden] in H1, H2. lia.
+Qed.
+
+Theorem frames_monotone t1 t2 fps : (0 < fps)%Q -> (t1 <= t2)%Q -> frames_of t1 fps <= frames_of t2 fps.
+Proof.
+  intros Hf Ht. unfold frames_of.
+  destruct (ceil_q (t1 * fps)%Q) as [A2 A1]. destruct (ceil_q (t2 * fps)%Q) as [B2 B1]. cbv zeta in A1, A2, B1, B2.
+  set (c1 := ceil_div (Qnum (t1 * fps)%Q) (Zpos (Qden (t1 * fps)%Q))) in *.
+  set (c2 := ceil_div (Qnum (t2 * fps)%Q) (Zpos (Qden (t2 * fps)%Q))) in *. clearbody c1 c2.
+  assert (Hp : (t1 * fps <= t2 * fps)%Q) by (apply Qmult_le_compat_r; [exact Ht|apply Qlt_le_weak; exact Hf]).
+  assert (Hlt : (inject_Z c1 - 1 < inject_Z c2)%Q) by lra.
+  unfold Qlt, Qminus, Qplus, Qopp, inject_Z in Hlt. cbn [Qnum Qden] in Hlt. lia.
+Qed.
+
+(* ---- clock time ----------------------------------------------------------------------------------------------------- *)
+Lemma pad3_three n : 0 <= n < 1000 -> pad3 n = [digit (n / 100); digit (n / 10 mod 10); digit (n mod 10)].
+Proof.
+  intro H. unfold pad3. destruct (n <? 10) eqn:E1.
+  - replace (n / 100) with 0 by lia. replace (n / 10 mod 10) with 0 by lia. replace (n mod 10) with n by lia. reflexivity.
+  - destruct (n <? 100) eqn:E2.
+    + cbn [digits_fuel]. rewrite E1. replace (n / 10 <? 10) with true by lia.
+      replace (n / 100) with 0 by lia. replace (n / 10 mod 10) with (n / 10) by lia. reflexivity.
+    + cbn [digits_fuel]. rewrite E1. replace (n / 10 <? 10) with false by lia.
+      replace (n / 10 / 10 <? 10) with true by lia. replace (n / 10 / 10) with (n / 100) by lia. reflexivity.
+Qed.
+
+Lemma round_he_exact k d : 0 < d -> round_he (k * d) d = k.
+Proof.
+  intro Hd. unfold round_he. rewrite Z.div_mul by lia. rewrite Z.mod_mul by lia.
+  replace (2 * 0 <? d) with true by lia. reflexivity.
+Qed.
+
+Theorem time_clock t k fps tr fr :
+  (t == k # 1000)%Q -> 0 <= k < 360000000 -> 0 < tr -> (0 < fr)%Q ->
+  exists s, to_time_format SyClock fps t = Some s /\
+            exists q, parse_time_x (Some tr) (Some fr) s = TVal q /\ (q == t)%Q.
+Proof.
+  intros Ht Hk Htr Hfr.
+  assert (Hnd : Qnum t * 1000 = k * Zpos (Qden t)). { unfold Qeq in Ht. simpl in Ht. exact Ht. }
+  assert (Hn0 : Qnum t <? 0 = false). { assert (0 <= Qnum t * 1000) by (rewrite Hnd; lia). lia. }
+  assert (Hfmt : to_time_format SyClock fps t = Some (print_clock 46 (clock_fields k))).
+  { unfold to_time_format. rewrite Hn0. unfold clock_from_seconds. rewrite Hn0. unfold clock_ms.
+    replace (1000 * Qnum t) with (k * Zpos (Qden t)) by lia. rewrite round_he_exact by lia.
+    destruct fps; reflexivity. }
+  exists (print_clock 46 (clock_fields k)). split; [exact Hfmt|].
+  pose proof (clock_fields_range k ltac:(lia)) as Hf. unfold clock_fields in *.
+  set (h := k / 3600000) in *. set (m := k / 60000 mod 60) in *. set (s := k / 1000 mod 60) in *. set (ms := k mod 1000) in *.
+  destruct Hf as [Hh [Hm [Hs [Hms Hsum]]]].
+  assert (Hh' : h < 100) by (unfold h; lia).
+  assert (Hpr : print_clock 46 (h, m, s, ms) =
+                print_time (TClock [h / 10; h mod 10] (m / 10) (m mod 10) (s / 10) (s mod 10) [ms / 100; ms / 10 mod 10; ms mod 10])).
+  { unfold print_clock. rewrite !pad2_two by lia. rewrite pad3_three by lia. reflexivity. }
+  rewrite Hpr.
+  pose proof (time_syntax (TClock [h / 10; h mod 10] (m / 10) (m mod 10) (s / 10) (s mod 10) [ms / 100; ms / 10 mod 10; ms mod 10]) tr fr) as Hts.
+  assert (Hwf : wf_texpr (TClock [h / 10; h mod 10] (m / 10) (m mod 10) (s / 10) (s mod 10) [ms / 100; ms / 10 mod 10; ms mod 10]) = true).
+  { unfold wf_texpr, all_dec, is_dec. cbn [forallb length]. lia. }
+  specialize (Hts Hwf Htr Hfr). cbn [time_value] in Hts.
+  destruct (parse_time_x (Some tr) (Some fr) _) as [q| |]; cbn [tres_equiv] in Hts; try contradiction.
+  exists q. split; [reflexivity|]. rewrite Hts, Ht.
+  unfold number, nat_of. cbn [fold_left length ten_to].
+  replace (((0 * 10 + h / 10) * 10 + h mod 10)) with h by lia.
+  replace (((0 * 10 + m / 10) * 10 + m mod 10)) with m by lia.
+  replace (((0 * 10 + s / 10) * 10 + s mod 10)) with s by lia.
+  replace ((((0 * 10 + ms / 100) * 10 + ms / 10 mod 10) * 10 + ms mod 10)) with ms by lia.
+  unfold Qeq, Qplus, Qmult, inject_Z. cbn [Qnum Qden]. lia.
+Qed.
